@@ -75,3 +75,12 @@ def reg_call(ka, kb, other=0):
 def tree_task(spec_json):
     """Body of the generated call trees / workloads of the thread-runner world."""
     return WORLD.body(spec_json)
+
+
+class VerifRetriable(Exception):
+    """Listed in retry_for by the C19 programs ("cretry")."""
+
+
+def prog_task(tree_json, node):
+    """Body of the generated task programs of C19 (same function in sync and distributed mode)."""
+    return WORLD.prog_body(tree_json, node)
